@@ -218,6 +218,10 @@ func (e *Env) groupEmptiness(l *facts.Level) {
 		c.Undecided("group-emptiness", who, e.P.Pos(ie.Pos()), err.Error())
 		return
 	}
+	leaves, badRep := e.canonNames(l, leaves)
+	for _, why := range badRep {
+		c.Undecided("group-emptiness", who+" names representation", e.P.Pos(ie.Pos()), why)
+	}
 	namesMap := ir.Field(ir.Param(0), l.Names)
 	look := func(n string) *ir.Term {
 		return &ir.Term{Op: ir.OLookup, Args: []*ir.Term{namesMap, ir.Const(constant.MakeString(n), types.Typ[types.String])}}
